@@ -297,6 +297,8 @@ def peel(e, identity=IDENTITY_CALLS, casts=True, mutlocal=True, widen=False):
             e = e[3][0]
         elif k == "call" and widen and e[2] is not None and e[2].nsyn in WIDEN_CALLS and e[3]:
             e = e[3][0]
+        elif k == "agg" and e[1] in ("std::borrow::Cow", "alloc::borrow::Cow") and len(e[3]) == 1 and identity:
+            e = e[3][0]          # Cow::Borrowed(x) / Cow::Owned(x): the same bytes, borrowed or owned
         else:
             return e
 
@@ -422,6 +424,8 @@ OPTION_MAP = {"std::option::Option::map", "core::option::Option::map"}
 OPTION_OK_OR = {"std::option::Option::ok_or", "core::option::Option::ok_or",
                 "std::option::Option::ok_or_else", "core::option::Option::ok_or_else"}
 RESULT_OK = {"std::result::Result::ok", "core::result::Result::ok"}
+FN_CALL_ONCE = {"std::ops::FnOnce::call_once", "core::ops::FnOnce::call_once", "std::ops::FnMut::call_mut", "core::ops::FnMut::call_mut",
+                "std::ops::Fn::call", "core::ops::Fn::call"}
 OPTION_UNWRAP_OR = {"std::option::Option::unwrap_or", "core::option::Option::unwrap_or"}
 OPTION_VIEW = {"std::option::Option::as_deref", "core::option::Option::as_deref", "std::option::Option::as_ref", "core::option::Option::as_ref",
                "std::option::Option::as_deref_mut", "std::option::Option::as_mut", "std::option::Option::copied", "std::option::Option::cloned"}
@@ -600,7 +604,7 @@ class Interp:
         elif k == "ref":
             out = ("ref", s(e[1]), e[2])
         elif k == "call":
-            out = self._option_default(("call", e[1], e[2], [s(a) for a in e[3]]))
+            out = self._ctor_call(self._option_default(("call", e[1], e[2], [s(a) for a in e[3]])))
         elif k == "agg":
             out = ("agg", e[1], e[2], [s(a) for a in e[3]], e[4])
         elif k in ("tuple", "array"):
@@ -631,6 +635,29 @@ class Interp:
             out = e
         memo[key] = out
         return out
+
+    def _ctor_call(self, call):
+        """`f(x)` where the function value f is a tuple-variant / tuple-struct constructor of a crate type
+        (`wrap: impl FnOnce(T) -> Packet` called with `Packet::V5`): the aggregate it builds."""
+        if call[0] != "call" or call[2] is None or _n(call[2]) not in FN_CALL_ONCE or len(call[3]) != 2:
+            return call
+        f = call[3][0]
+        while f[0] in ("ref", "deref") or (f[0] == "cast" and str(f[1]).startswith("PointerCoercion")):
+            f = f[1] if f[0] != "cast" else f[2]
+        if f[0] != "constfn":
+            return call
+        path = f[1].path
+        if "::" not in path:
+            return call
+        adt_path, variant = path.rsplit("::", 1)
+        adt = self.prog.adts.get(adt_path)
+        argt = call[3][1]
+        if adt is None or argt[0] != "tuple":
+            return call
+        for v in adt["variants"]:
+            if v["name"] == variant and len(v["fields"]) == len(argt[1]):
+                return ("agg", adt_path, variant, list(argt[1]), [fl["name"] for fl in v["fields"]])
+        return call
 
     def _option_default(self, call):
         """`opt.unwrap_or(d)` where opt's variants are known on every incoming path (`None` initially, `Some(x)` after
